@@ -391,14 +391,14 @@ static void run_c11(const RunSpec& s, RunResult& R) {
   env.model_compare = false;
   env.conservation = true;
   env.protect_sources = sim_flavour != SIM_ASAN;
-  sim_set_lib_fill(SIM_FILL_A5, s.mem_salt);
+  sim_set_lib_fill(SIM_FILL_ZERO, s.mem_salt);  // first execution: fresh heap memory reads as zero (what a new mapping gives)
   Exec a(s.P, env);
   a.setup_objects();
   a.run_range(-1);
   ExecEnv env2 = env;
   env2.vary_memory = true;
   env2.mem_salt = s.mem_salt | 1;
-  sim_set_lib_fill(SIM_FILL_SNAN, s.mem_salt ^ 0xabcdef);
+  sim_set_lib_fill((s.mem_salt >> 7) & 1 ? SIM_FILL_FF : SIM_FILL_RANDOM, s.mem_salt ^ 0xabcdef);  // second: recycled, dirty
   Exec b(s.P, env2);
   b.setup_objects();
   b.run_range(-1);
